@@ -236,6 +236,10 @@ func genRModel(r *Rand) *rModel {
 		tags, annos, src := mkMeta()
 		a.Tags, a.Annos = tags, annos
 		b.WriteString(plainNames[i] + src + ":\n")
+		if r.Chance(1, 6) {
+			// the placeholder line kept beside real content: an endpoint named `...` that the relational model leaves out
+			b.WriteString("    ...\n")
+		}
 		// types
 		nt := r.Intn(4)
 		typeNames := []string{}
